@@ -46,6 +46,11 @@ const keyMaxID = "C17/load-id-maxuint64"
 // removed from storage while one stays in the cache.
 const keyRetry = "C17/retry-after-failed-overlap-delete"
 
+// keyRotate: a key rotation (SetLeadership / tick) whose save of the key dictionary
+// fails has already changed the dictionary the key manager serves: regions are then
+// encrypted with a data key that was never persisted.
+const keyRotate = "C17/rotation-save-failure-serves-unpersisted-key"
+
 func TestMain(m *testing.M)   { vkit.MainWith(m, "C17", encCleanup) }
 func TestProp(t *testing.T)   { vkit.RunAll(t) }
 func TestReplay(t *testing.T) { vkit.RunReplay(t) }
@@ -452,9 +457,19 @@ type RBody struct {
 }
 
 type ROp struct {
-	K    string `json:"k"` // new, over, del, delabs, resave, flush, reopen, crash, check, faultflush, faultfill
+	K    string `json:"k"` // new, over, del, delabs, resave, flush, reopen, crash, check, faultflush, faultfill, rekey
 	Pick int    `json:"pick,omitempty"`
 	B    RBody  `json:"b"`
+	Rk   *Rekey `json:"rk,omitempty"`
+}
+
+// Rekey: pd is restarted with another data-encryption-method (a new key manager over
+// the same etcd), becomes leader (SetLeadership) with a fault on the save of the key
+// dictionary, and goes on saving regions with that key manager whatever was returned.
+type Rekey struct {
+	Method int    `json:"m"`               // 0 off, 1..3 aes128/192/256-ctr
+	Fault  string `json:"f,omitempty"`     // "", failbefore, lostack, notleader
+	Retry  bool   `json:"retry,omitempty"` // SetLeadership once more without fault (the next campaign)
 }
 
 type BigSlot struct {
@@ -536,11 +551,18 @@ func genROps(t *rapid.T, c *RCase, maxOps int) int {
 	if c.Backend == "leveldb" {
 		kinds = append(kinds, "flush", "flush", "reopen", "crash", "crash", "faultflush", "faultflush", "faultfill")
 	}
+	if c.Backend != "etcd" {
+		kinds = append(kinds, "rekey", "rekey")
+	}
 	nOps := rapid.IntRange(0, maxOps).Draw(t, "nOps")
 	news := 0
 	for i := 0; i < nOps; i++ {
 		op := ROp{K: pick(t, "kind", kinds), Pick: rapid.IntRange(0, 1000).Draw(t, "pick")}
 		switch op.K {
+		case "rekey":
+			op.Rk = &Rekey{Method: pick(t, "rkMethod", []int{0, 1, 2, 3, 1, 3}),
+				Fault: pick(t, "rkFault", []string{"", "failbefore", "failbefore", "lostack", "notleader"}),
+				Retry: pick(t, "rkRetry", []bool{false, false, true})}
 		case "new", "over", "resave", "faultfill":
 			op.B = genRBody(t, c.Slots)
 			if op.K == "new" {
@@ -719,13 +741,16 @@ func (f *rfix) openRS() error {
 
 // storage returns a fresh core.Storage over the fixture (Storage is stateless but
 // for the "regions loaded once" flag, which must be new for every LoadRegionsOnce).
-func (f *rfix) storage() *core.Storage {
+func (f *rfix) storage() *core.Storage { return f.storageWith(f.km) }
+
+// storageWith: the same storage seen through another key manager (a restarted pd).
+func (f *rfix) storageWith(km *encryptionkm.KeyManager) *core.Storage {
 	if f.backend == "leveldb" {
-		st := core.NewStorage(f.fk, core.WithRegionStorage(f.rs), core.WithEncryptionKeyManager(f.km))
+		st := core.NewStorage(f.fk, core.WithRegionStorage(f.rs), core.WithEncryptionKeyManager(km))
 		st.SwitchToRegionStorage()
 		return st
 	}
-	return core.NewStorage(f.fk, core.WithEncryptionKeyManager(f.km))
+	return core.NewStorage(f.fk, core.WithEncryptionKeyManager(km))
 }
 
 func (f *rfix) cleanup() {
@@ -843,13 +868,35 @@ func runRegionCase(c RCase) (info vkit.Info, err error) {
 	}
 	f := &rfix{backend: c.Backend}
 	defer f.cleanup()
+	usesEnc := c.Enc > 0
+	for _, op := range c.Ops {
+		if op.K == "rekey" && op.Rk != nil {
+			usesEnc = true
+		}
+	}
+	var ev *encEnv
+	if usesEnc {
+		var e error
+		if ev, e = getEnv(); e != nil || ev == nil {
+			info.Inconclusive = true
+			info.Class("key-manager-unavailable")
+			return info, nil
+		}
+		if e := ev.resetKeys(); e != nil {
+			info.Inconclusive = true
+			return info, nil
+		}
+	}
 	if c.Enc > 0 {
 		enc := c.Enc
 		if enc > 3 {
 			enc = 3
 		}
-		km, e := keyManager(enc)
-		if e != nil || km == nil {
+		km, e := ev.newKM(enc)
+		if e == nil {
+			e = ev.setLeadership(km, "")
+		}
+		if e != nil {
 			info.Inconclusive = true
 			info.Class("key-manager-unavailable")
 			return info, nil
@@ -1024,12 +1071,22 @@ func runRegionCase(c RCase) (info vkit.Info, err error) {
 		setBudget(false)
 		f.fk.TakeLog()
 		var got []*metapb.Region
-		e := f.storage().LoadRegions(func(ri *core.RegionInfo) []*core.RegionInfo {
+		lst := f.storage()
+		if usesEnc {
+			// end to end: the full load is done as a restarted pd would do it, with a
+			// brand-new key manager that knows only what is in etcd
+			fresh, e := ev.newKM(0)
+			if e != nil {
+				return nil, fmt.Errorf("%s: a brand-new key manager cannot be created from etcd: %v", when, e)
+			}
+			lst = f.storageWith(fresh)
+		}
+		e := lst.LoadRegions(func(ri *core.RegionInfo) []*core.RegionInfo {
 			got = append(got, ri.GetMeta())
 			return nil
 		})
 		if e != nil {
-			return nil, fmt.Errorf("%s: LoadRegions failed: %v", when, e)
+			return nil, fmt.Errorf("%s: LoadRegions failed (%d regions returned before the error): %v", when, len(got), e)
 		}
 		if f.fk.KeepLog {
 			lims := rangeLimits(f.fk.TakeLog())
@@ -1370,6 +1427,88 @@ func runRegionCase(c RCase) (info vkit.Info, err error) {
 				return info, fmt.Errorf("op %d: cannot reopen leveldb: %v", i, e)
 			}
 			info.ClassIf(failed > 0, "autoflush-write-fault")
+		case "rekey":
+			if op.Rk == nil || ev == nil {
+				break
+			}
+			rk := *op.Rk
+			if rk.Method < 0 || rk.Method > 3 {
+				rk.Method = 0
+			}
+			// pd restarts: the region storage is closed (flushed) first
+			if m.leveldb {
+				if e := st.Close(); e != nil {
+					return info, fmt.Errorf("op %d: close failed: %v", i, e)
+				}
+				f.rs = nil
+				m.flush()
+				if e := checkHeld(when + ", after Close"); e != nil {
+					return info, e
+				}
+			}
+			held = map[uint64]*metapb.Region{}
+			exists, curMethod, e := ev.persisted()
+			if e != nil {
+				return info, fmt.Errorf("op %d: the key dictionary in etcd cannot be loaded by a brand-new key manager: %v", i, e)
+			}
+			km2, e := ev.newKM(rk.Method)
+			if e != nil {
+				return info, fmt.Errorf("op %d: NewKeyManager(%s) failed: %v", i, encMethods[rk.Method], e)
+			}
+			fault := rk.Fault
+			saveFails := fault == "failbefore" || fault == "notleader"
+			if saveFails && exists && curMethod != rk.Method && vkit.Known(keyRotate) {
+				// known finding: exactly this class (the save of a needed rotation over an existing dictionary fails) is left out
+				info.Exclude(keyRotate)
+				fault, saveFails = "", false
+			}
+			checkServed := func(what string, serr error) error {
+				id, _, e := km2.GetCurrentKey()
+				if e != nil {
+					return fmt.Errorf("op %d: after %s (returned %v) GetCurrentKey fails: %v", i, what, serr, e)
+				}
+				if id == 0 {
+					return nil
+				}
+				fresh, e := ev.newKM(0)
+				if e != nil {
+					return fmt.Errorf("op %d: after %s a brand-new key manager cannot be created from etcd: %v", i, what, e)
+				}
+				if _, e := fresh.GetKey(id); e != nil {
+					return fmt.Errorf("op %d: after %s with method %s over a dictionary with current method %s (returned: %v) the key manager serves current key id %d, which is not in the dictionary stored in etcd (%v): regions saved from now on cannot be decrypted after a restart",
+						i, what, encMethods[rk.Method], encMethods[curMethod], serr, id, e)
+				}
+				return nil
+			}
+			serr := ev.setLeadership(km2, fault)
+			if e := checkServed("SetLeadership with fault '"+fault+"'", serr); e != nil {
+				return info, e
+			}
+			if serr != nil && fault == "" {
+				return info, fmt.Errorf("op %d: SetLeadership failed without a fault: %v", i, serr)
+			}
+			if rk.Retry {
+				serr2 := ev.setLeadership(km2, "")
+				if serr2 != nil {
+					return info, fmt.Errorf("op %d: SetLeadership retried without a fault failed: %v", i, serr2)
+				}
+				if e := checkServed("the retried SetLeadership", serr2); e != nil {
+					return info, e
+				}
+			}
+			f.km = km2
+			if m.leveldb {
+				if e := f.openRS(); e != nil {
+					return info, fmt.Errorf("op %d: reopen failed: %v", i, e)
+				}
+			}
+			st = f.storage()
+			info.Class("rekey")
+			info.ClassIf(curMethod != rk.Method, "rekey-rotation-needed")
+			info.ClassIf(saveFails, "rekey-key-save-failed")
+			info.ClassIf(saveFails && curMethod != rk.Method, "rekey-key-save-failed-while-rotation-needed")
+			info.ClassIf(fault == "lostack", "rekey-key-save-lost-ack")
+			needCheck = true
 		case "check":
 			needCheck = true
 		}
@@ -1933,4 +2072,48 @@ func TestFinding_RetryAfterFailedOverlapDelete(t *testing.T) {
 	}
 	vkit.Finding(t, keyRetry, err1 != nil && err2 == nil && !same,
 		fmt.Sprintf("regions 1 and 2, both [a,b) version 1, flushed to the leveldb region storage; first LoadRegionsOnce(CheckAndPutRegion) with the removal of the overlapped region failing: %v; retry after the fault had gone: %v; afterwards storage ids %v, cache ids %v", err1, err2, stored, cached))
+}
+
+// TestFinding_RotationSaveFailureServesUnpersistedKey: a dictionary with an aes128
+// key exists; pd restarts with data-encryption-method aes256 (new key manager) and
+// becomes leader; the save of the rotated dictionary fails; the key manager
+// nevertheless serves the new key, regions saved through it cannot be decrypted by
+// a key manager created from etcd (a restarted pd).
+func TestFinding_RotationSaveFailureServesUnpersistedKey(t *testing.T) {
+	ev, err := getEnv()
+	if err != nil || ev == nil {
+		t.Skipf("etcd fixture unavailable: %v", err)
+	}
+	if err := ev.resetKeys(); err != nil {
+		t.Skip(err)
+	}
+	km1, err := ev.newKM(1)
+	if err == nil {
+		err = ev.setLeadership(km1, "")
+	}
+	if err != nil {
+		t.Skipf("first key manager: %v", err)
+	}
+	id1, _, _ := km1.GetCurrentKey()
+	km2, err := ev.newKM(3)
+	if err != nil {
+		t.Skipf("second key manager: %v", err)
+	}
+	serr := ev.setLeadership(km2, "failbefore")
+	id2, _, _ := km2.GetCurrentKey()
+	fresh, err := ev.newKM(0)
+	if err != nil {
+		t.Skipf("fresh key manager: %v", err)
+	}
+	_, kerr := fresh.GetKey(id2)
+	// end to end: a region saved by the member with km2, loaded by a restarted pd
+	base := kv.NewMemoryKV()
+	region := &metapb.Region{Id: 1, StartKey: []byte("a"), EndKey: []byte("b"), RegionEpoch: &metapb.RegionEpoch{ConfVer: 1, Version: 1},
+		Peers: []*metapb.Peer{{Id: 2, StoreId: 1}}}
+	serr2 := core.NewStorage(base, core.WithEncryptionKeyManager(km2)).SaveRegion(region)
+	n := 0
+	lerr := core.NewStorage(base, core.WithEncryptionKeyManager(fresh)).LoadRegions(func(r *core.RegionInfo) []*core.RegionInfo { n++; return nil })
+	ev.resetKeys()
+	vkit.Finding(t, keyRotate, serr != nil && id2 != 0 && id2 != id1 && kerr != nil && serr2 == nil && lerr != nil,
+		fmt.Sprintf("dictionary with aes128 current key %d; new key manager with method aes256, SetLeadership with the key-dictionary txn failing returned: %v; it now serves current key %d; a key manager created from etcd: GetKey(%d) -> %v; SaveRegion through the first returned %v, LoadRegions through the second returned %d regions and: %v", id1, serr, id2, id2, kerr, serr2, n, lerr))
 }
